@@ -164,7 +164,7 @@ pub fn block(name: &str, c: &AlphaCtx, out: &mut Vec<Op>) {
             }
             out.push(Op::k(OpK::ShrinkToFit));
             out.push(Op::k(OpK::CloneReplace));
-            for s in 0..4 {
+            for s in 0..6 {
                 out.push(Op::arg(OpK::CloneFromInto, s));
             }
         }
@@ -184,6 +184,7 @@ pub fn block(name: &str, c: &AlphaCtx, out: &mut Vec<Op>) {
             out.push(Op::k(OpK::ShrinkToFit));
             out.push(Op::k(OpK::CloneReplace));
             out.push(Op::arg(OpK::CloneFromInto, 2));
+            out.push(Op::arg(OpK::CloneFromInto, 4));
             out.push(Op::k(OpK::Clear));
             out.push(Op::k(OpK::IterMutWrite));
         }
@@ -298,9 +299,53 @@ pub fn block(name: &str, c: &AlphaCtx, out: &mut Vec<Op>) {
                 }
             }
         }
+        "skey" => {
+            for &k in &ks {
+                for op in [OpK::SInsert, OpK::SReplace, OpK::SRemove, OpK::STake, OpK::SGet, OpK::SContains, OpK::SGetOrInsert, OpK::SGetOrInsertOwned, OpK::SGetOrInsertWith] {
+                    out.push(Op::key(op, k));
+                }
+            }
+        }
+        "sshape" | "sshape2" => {
+            let e2 = name == "sshape2";
+            for p in [0u64, 2, 3, 4] {
+                out.push(Op::arg(OpK::Retain, p));
+                out.push(Op::arg(OpK::DrainFilter, iter_arg(p, MODE_CONSUME, 0)));
+            }
+            for &r in c.classes.present_reps().iter().take(if e2 { 0 } else { 8 }) {
+                out.push(Op::new(OpK::Retain, r, 6));
+                out.push(Op::new(OpK::Retain, r, 7));
+            }
+            out.push(Op::arg(OpK::DrainFilter, iter_arg(1, MODE_DROP_AT, 1)));
+            out.push(Op::arg(OpK::DrainFilter, iter_arg(1, MODE_FORGET_AT, 1)));
+            out.push(Op::arg(OpK::Drain, iter_arg(0, MODE_CONSUME, 0)));
+            out.push(Op::arg(OpK::Drain, iter_arg(0, MODE_DROP_AT, 1)));
+            out.push(Op::arg(OpK::IntoIter, iter_arg(0, MODE_DROP_AT, 1)));
+            let rs: Vec<u64> = if e2 { vec![1, 8, 32] } else { vec![1, 8, len, 200] };
+            for n in rs {
+                out.push(Op::arg(OpK::Reserve, n));
+            }
+            out.push(Op::arg(OpK::TryReserve, 8));
+            out.push(Op::arg(OpK::ShrinkTo, 8));
+            out.push(Op::k(OpK::ShrinkToFit));
+            out.push(Op::k(OpK::CloneReplace));
+            out.push(Op::arg(OpK::CloneFromInto, 2));
+            out.push(Op::k(OpK::Clear));
+            out.push(Op::k(OpK::FromIter));
+            out.push(Op::k(OpK::IterCheck));
+            if e2 {
+                out.push(Op::new(OpK::ExtendOverlap, 0, c.universe.max(1) as u64));
+                out.push(Op::new(OpK::ExtendRef, 0, c.universe.max(1) as u64));
+            } else {
+                out.push(Op::arg(OpK::ExtendFresh, 3));
+                out.push(Op::arg(OpK::ExtendFresh, 20));
+                out.push(Op::new(OpK::ExtendOverlap, c.classes.old_next.or(c.classes.main_a).unwrap_or(0), 4));
+                out.push(Op::new(OpK::ExtendRef, c.next_key.saturating_sub(2), 5));
+            }
+        }
         "clone" => {
             out.push(Op::k(OpK::CloneReplace));
-            for s in 0..4 {
+            for s in 0..6 {
                 out.push(Op::arg(OpK::CloneFromInto, s));
             }
         }
